@@ -471,7 +471,7 @@ def differ(sem: Sem, a_node, b_node):
     return z3.Or(a[0] != b[0], z3.And(z3.Not(a[0]), a[1] != b[1]))
 
 
-def decide(intended, parsed, coltypes, symbolic_literals=None, timeout_ms=5000):
+def decide(intended, parsed, coltypes, symbolic_literals=None, timeout_ms=60000):
     """Returns (verdict, model_dict|None, solver_seconds). verdict in equal|differ|unknown."""
     import time
 
